@@ -8,6 +8,17 @@ from more_executors._impl import futures as F
 KWNAMES = (("a",), ("a", "b"), ("x", "fn"), ("key", "x"), ("args", "kwargs"), ("b", "a", "x"))
 
 
+class FalsyError(Exception):
+    """an exception object that is falsy (defines __len__)"""
+
+    def __init__(self, tag):
+        Exception.__init__(self, tag)
+        self.tag = tag
+
+    def __len__(self):
+        return 0
+
+
 def _params(maxpos, kwsets):
     out = []
     for npos in range(0, maxpos + 1):
@@ -16,6 +27,10 @@ def _params(maxpos, kwsets):
             for bad in [None] + list(range(ninputs)) + ["fn_raises"]:
                 for pre in (False, True):
                     out.append(dict(npos=npos, kws=kws, bad=bad, pre=pre))
+                    if isinstance(bad, int) and ninputs <= 3:
+                        # the failing input fails with a falsy exception object / is an f_proxy future
+                        out.append(dict(npos=npos, kws=kws, bad=bad, pre=pre, falsy=True))
+                        out.append(dict(npos=npos, kws=kws, bad=bad, pre=pre, proxy=True))
     return out
 
 
@@ -38,7 +53,7 @@ def body(mc, p):
         f = allf[j]
         f.set_running_or_notify_cancel()
         if p["bad"] == j:
-            f.set_exception(E2("in%d" % j))
+            f.set_exception(FalsyError("in%d" % j) if p.get("falsy") else E2("in%d" % j))
         elif j == 0:
             f.set_result(target)
         elif j <= npos:
@@ -48,7 +63,22 @@ def body(mc, p):
     if p["pre"]:
         for j in range(len(allf)):
             resolve(j)
-    out = F.f_apply(ffn, *fpos, **fkw)
+    if p.get("proxy") and isinstance(p["bad"], int):
+        j = p["bad"]
+        if j == 0:
+            ffn_in = F.f_proxy(ffn)
+            out = F.f_apply(ffn_in, *fpos, **fkw)
+        elif j <= npos:
+            fpos2 = list(fpos)
+            fpos2[j - 1] = F.f_proxy(fpos[j - 1])
+            out = F.f_apply(ffn, *fpos2, **fkw)
+        else:
+            fkw2 = dict(fkw)
+            key = kws[j - 1 - npos]
+            fkw2[key] = F.f_proxy(fkw[key])
+            out = F.f_apply(ffn, *fpos, **fkw2)
+    else:
+        out = F.f_apply(ffn, *fpos, **fkw)
     mc.emit("built", out=snapshot(out))
     if not p["pre"]:
         pending = list(range(len(allf)))
@@ -69,7 +99,8 @@ def check(x):
     wargs = tuple("P%d" % i for i in range(npos))
     wkw = tuple(sorted((k, "K" + k) for k in kws))
     if isinstance(p["bad"], int):
-        x.require(got == ("err", "E2(in%d)" % p["bad"]), "failing-input-not-propagated", detail=repr(got))
+        want = ("err", ("FalsyError(in%d)" if p.get("falsy") else "E2(in%d)") % p["bad"])
+        x.require(got == want, "failing-input-not-propagated", detail=repr(got), falsy=bool(p.get("falsy")), proxy=bool(p.get("proxy")))
         x.require(x.obs["ncalls"] == 0, "fn-called-despite-failed-input")
         return
     x.require(x.obs["ncalls"] == 1, "fn-call-count", n=x.obs["ncalls"], detail="out=%r" % (got,))
